@@ -330,7 +330,7 @@ func progVisitOf(r *report.Run, memSeed uint32, o progOracle) progVisit {
 	return func(e *progEnv, res *progStepResult) bool {
 		sig, what, descend := o(e, res)
 		if sig != "" {
-			r.Violation(sig, what, progPath{e.seed, memSeed, e.pathNames()})
+			r.ViolationSized(sig, what, progPath{e.seed, memSeed, e.pathNames()}, len(e.path))
 			return false
 		}
 		return descend
